@@ -186,7 +186,8 @@ class LSFScriptAdapter(SchedulerScriptAdapter):
             
         if nodes:
             rs_tasks = int(rs_per_node)*int(nodes)*int(tasks_per_rs)
-            if (int(procs) > rs_tasks) or (int(procs) % rs_tasks) > 0:
+            if (int(procs) > rs_tasks) or \
+                    (rs_tasks and int(procs) % rs_tasks > 0):
                 LOGGER.error("Resource Specification Error: 'procs' (%s)"
                              " must be a multiple of "
                              "'rs per node' * 'nodes' * 'tasks per rs' (%s)"
@@ -203,7 +204,8 @@ class LSFScriptAdapter(SchedulerScriptAdapter):
             #       compute the number of nodes on the allocation if scheduling
             #       this to a reservation?  If so, might want to revisit
             rs_tasks = int(rs_per_node)*int(tasks_per_rs)
-            if int(procs) > rs_tasks or int(procs) % rs_tasks > 0:
+            if int(procs) > rs_tasks or \
+                    (rs_tasks and int(procs) % rs_tasks > 0):
                 LOGGER.error("Resource Specification Error: 'procs' (%s)"
                              " must be a multiple of "
                              "'rs per node' * 'tasks per rs' (%s)"
